@@ -9,7 +9,7 @@ From Coq Require Import List NArith Bool.
 From SV Require Import Text.Str Text.Prog Text.Tokenizer.
 From SV Require Import KV.KvBase KV.KvLex KV.KvParse KV.KvSer KV.KvSym KV.KvParseProofs KV.KvRoundtrip KV.KvStrip
   KV.KvRefine KV.KvDelivery KV.KvExport KV.KvFlags KV.KvLoop KV.KvLoopRef KV.KvLoopProofs KV.KvLoopEquiv KV.KvLoopRoundtrip
-  KV.KvWriter KV.KvFlagProg KV.KvWProg KV.KvProperty KV.KvNoEsc KV.KvShift KV.KvWHist KV.KvXProg.
+  KV.KvWriter KV.KvFlagProg KV.KvWProg KV.KvProperty KV.KvNoEsc KV.KvShift KV.KvWHist KV.KvXProg KV.KvProperty5.
 Import ListNotations.
 Open Scope N_scope.
 
@@ -474,3 +474,42 @@ Proof. exact ref_xprog_ok. Qed.
 
 Theorem export_program_with_mutating_call_rejected : xprog_pure sorting_xprog = false.
 Proof. exact sorting_xprog_rejected. Qed.
+
+(** Round 5 -- THE WHOLE PROPERTY, for every call: [c01_property] together with history independence of the writer and
+    with the deprecated export() (text of its instruction program = text of the export model, tree unchanged, round
+    trip).  Thirteen hypotheses, all decidable conditions on objects regenerated from the source on every run. *)
+Theorem c01_property_all_calls : forall C E P T F TB ps fp W H X XP,
+  cfg_ok C = true -> esc_ok E = true -> pcfg_ok P = true -> loop_ok T F P = true -> tables_match TB E = true ->
+  delivery_ok ps = true -> flagprog_ok fp = true -> wprog_pure W = true -> wprog_text_ok C W = true ->
+  hprog_stateless H = true -> xcfg_ok X = true -> xprog_pure XP = true -> xprog_text_ok X XP = true ->
+  (* 1. the property for one call of serialise(), on every execution path (c01_property) *)
+  (forall casefold flags defaults O o x p,
+    po_single_block O = false -> ws_opts o = true ->
+    po_newline_keys O || obj_names_ok x = true -> po_newline_values O || obj_values_ok x = true ->
+    In p ps ->
+    let flag := flag_of fp casefold flags defaults in
+    exists txt,
+      (path_text C E o x p = Some txt /\ sp_ret_ok p = true) /\
+      (txt = ser_obj C E o x /\
+       forall upd fuel k cur, (kv_depth k <= fuel)%nat -> snd (wexec C E o W upd fuel cur k) = ser_node C E o cur k) /\
+      (forall upd fuel k cur, fst (wexec C E o W upd fuel cur k) = k) /\
+      parse_kv_tree T F P O E flag txt = POk (obj_doc x) /\
+      (forall cs n f, concat cs = txt -> (length txt < n)%nat -> (length txt < f)%nat ->
+         parse_kv_reader P O TB flag n f (chk_of_chunks cs) = parse_kv_tree T F P O E flag txt) /\
+      (forall o2, ws_opts o2 = true ->
+         lex_all E txt = lex_all E (ser_obj C E o2 x) /\ strip_blanks txt = obj_canon E x) /\
+      (forall s, flag s = read_flag casefold flags defaults s)) /\
+  (* 2. ... for every call, whatever the calls before it did or left undone *)
+  (forall idf is_root other calls fuel b k,
+     hexec H idf is_root other fuel (marks_after H idf is_root other calls []) b k = hexec H idf is_root other fuel [] b k) /\
+  (* 3. the deprecated writer: text of the program = text of the export model, tree unchanged, round trip *)
+  (forall upd fuel w k, (kv_depth k <= fuel)%nat -> xexec X E XP upd fuel w k = (k, exp_node X E w k)) /\
+  (forall flag_on O d, po_single_block O = false ->
+     po_newline_keys O || doc_names_ok d = true -> po_newline_values O || doc_values_ok d = true ->
+     parse_kv_opts P O E flag_on (export_doc X E d) = POk d).
+Proof. exact whole_property_all_calls. Qed.
+
+Theorem c01_property_all_calls_hypotheses_satisfiable :
+  hprog_stateless ref_hprog = true /\ xcfg_ok (ref_expcfg (PEsc FName)) = true /\
+  xprog_pure (ref_xprog (PEsc FName)) = true /\ xprog_text_ok (ref_expcfg (PEsc FName)) (ref_xprog (PEsc FName)) = true.
+Proof. exact whole_property_all_calls_hypotheses_satisfiable. Qed.
